@@ -445,7 +445,7 @@ pub const RUNS: [u32; 25] = [
 
 /// Runs at which a full sweep over all elements is made in the quick tier (first run of every
 /// class with complete calibration, and the simulation number).
-const SWEEP_RUNS: [u32; 4] = [u32::MAX, 9277, 10418, 11084];
+const SWEEP_RUNS: [u32; 2] = [u32::MAX, 11084];
 
 fn wave(rng: &mut Rng, n: usize) -> Vec<i16> {
     (0..n)
@@ -463,34 +463,49 @@ fn delay_of(run: u32, pad: bool) -> usize {
     d.unwrap_or(100)
 }
 
-/// Emit a consistent event; when it must be rejected for a missing calibration and has more
-/// than one element, also emit its halves so that every element with calibration is observed.
+/// Emit a consistent event; when it must be rejected for a missing calibration, also emit the
+/// event restricted to the elements that have one (so that every such element is observed on
+/// its slot) and, for a few of the others, the single-element events (each must be rejected).
 fn emit_split(s: &mut Session, rng: &mut Rng, gen: &'static str, spec: &Spec) {
     let banks = spec_banks(rng, spec);
     add(s, gen, spec.run, &banks, Expect::Consistent(spec));
     if let Want::Reject(_) = want(spec) {
-        let nw = spec.wires.len();
-        let np: usize = spec.pads.iter().map(|p| p.sent.len()).sum();
-        if nw > 1 {
-            for half in [&spec.wires[..nw / 2], &spec.wires[nw / 2..]] {
-                let sub = Spec { wires: half.to_vec(), pads: vec![], ..spec.clone() };
-                emit_split(s, rng, gen, &sub);
-            }
-        } else if np > 1 && nw == 0 {
-            if spec.pads.len() > 1 {
-                let k = spec.pads.len() / 2;
-                for half in [&spec.pads[..k], &spec.pads[k..]] {
-                    let sub = Spec { pads: half.to_vec(), ..spec.clone() };
-                    emit_split(s, rng, gen, &sub);
-                }
+        let ok_wire = |w: &WireSpec| matches!(want(&Spec { wires: vec![w.clone()], pads: vec![], ..spec.clone() }), Want::Accept(_));
+        let ok_pad = |p: &PwbSpec, c: &(u16, Vec<i16>)| {
+            let one = PwbSpec { sent: vec![c.clone()], ..p.clone() };
+            matches!(want(&Spec { wires: vec![], pads: vec![one], ..spec.clone() }), Want::Accept(_))
+        };
+        let mut good = Spec { wires: vec![], pads: vec![], ..spec.clone() };
+        let mut bad: Vec<Spec> = Vec::new();
+        for w in &spec.wires {
+            if ok_wire(w) {
+                good.wires.push(w.clone());
             } else {
-                let p = &spec.pads[0];
-                let k = p.sent.len() / 2;
-                for half in [&p.sent[..k], &p.sent[k..]] {
-                    let sub = Spec { pads: vec![PwbSpec { sent: half.to_vec(), ..p.clone() }], ..spec.clone() };
-                    emit_split(s, rng, gen, &sub);
+                bad.push(Spec { wires: vec![w.clone()], pads: vec![], ..spec.clone() });
+            }
+        }
+        for p in &spec.pads {
+            let mut q = PwbSpec { sent: vec![], ..p.clone() };
+            for c in &p.sent {
+                if ok_pad(p, c) {
+                    q.sent.push(c.clone());
+                } else {
+                    bad.push(Spec { wires: vec![], pads: vec![PwbSpec { sent: vec![c.clone()], ..p.clone() }], ..spec.clone() });
                 }
             }
+            if !q.sent.is_empty() {
+                good.pads.push(q);
+            }
+        }
+        if good.wires.is_empty() && good.pads.is_empty() {
+            return;
+        }
+        let banks = spec_banks(rng, &good);
+        add(s, gen, good.run, &banks, Expect::Consistent(&good));
+        rng.shuffle(&mut bad);
+        for b in bad.iter().take(2) {
+            let banks = spec_banks(rng, b);
+            add(s, gen, b.run, &banks, Expect::Consistent(b));
         }
     }
 }
@@ -498,7 +513,12 @@ fn emit_split(s: &mut Session, rng: &mut Rng, gen: &'static str, spec: &Spec) {
 /// All 32 channels of one Alpha16 board.
 fn board_wires(rng: &mut Rng, run: u32, board: usize, extra: usize) -> Vec<WireSpec> {
     let d = delay_of(run, false);
-    (0..32u8).map(|ch| WireSpec { board, ch, wave: wave(rng, (d + 1 + rng.below(extra as u64 + 1) as usize).max(64)) }).collect()
+    (0..32u8)
+        .map(|ch| {
+            let n = (d + 1 + rng.below(extra as u64 + 1) as usize).max(64);
+            WireSpec { board, ch, wave: wave(rng, n) }
+        })
+        .collect()
 }
 
 /// One chip of a PadWing board with all 79 channels sent (72 pads + 3 reset + 4 FPN).
@@ -534,7 +554,8 @@ pub fn small_spec(rng: &mut Rng, run: u32) -> Spec {
     for _ in 0..rng.range(2, 5) {
         let (b, ch) = (rng.below(8) as usize, rng.below(32) as u8);
         if seen.insert((b, ch)) {
-            wires.push(WireSpec { board: b, ch, wave: wave(rng, (dw + rng.range(1, 40) as usize).max(64)) });
+            let n = (dw + rng.range(1, 40) as usize).max(64);
+            wires.push(WireSpec { board: b, ch, wave: wave(rng, n) });
         }
     }
     let mut pads = Vec::new();
@@ -687,7 +708,8 @@ fn injections(s: &mut Session, rng: &mut Rng, run: u32) {
     if let Some(i) = find_bank(&base, is_c) {
         let w = &spec.wires[i];
         let mut b = base.clone();
-        b[i].1 = adc_bytes(rng, a16[w.board].1, rng.below(16) as u8, &w.wave);
+        let bv = rng.below(16) as u8;
+        b[i].1 = adc_bytes(rng, a16[w.board].1, bv, &w.wave);
         add(s, "bv-channel-in-wire-bank", run, &b, Expect::MustReject("wire bank holds a barrel-veto channel"));
         // payload says another board (its MAC) than the name
         let mut b = base.clone();
@@ -699,7 +721,8 @@ fn injections(s: &mut Session, rng: &mut Rng, run: u32) {
         let installed = installed_boards(run);
         let missing: Vec<usize> = (0..pwb.len()).filter(|i| !installed.contains(i)).collect();
         for &m in missing.iter().take(3) {
-            let p = PwbSpec { board: m, ..full_chip(rng, run, m, rng.below(4) as u8) };
+            let chip = rng.below(4) as u8;
+            let p = full_chip(rng, run, m, chip);
             let sub = Spec { pads: vec![p], wires: vec![], ..spec.clone() };
             let b = spec_banks(rng, &sub);
             add(s, "board-not-installed", run, &b, Expect::MustReject("PadWing board not installed for the run"));
@@ -772,7 +795,8 @@ fn f6_classes(s: &mut Session, rng: &mut Rng, run: u32) {
     let name = c_name(&a16[b].0, ch);
     let other = (ch + 1 + rng.below(31) as u8) % 32;
     // (a) suppressed packet with a BV channel id in a C-bank
-    let banks = vec![(name.clone(), adc_short(rng, rng.below(16) as u8)), trg.clone()];
+    let bv = rng.below(16) as u8;
+    let banks = vec![(name.clone(), adc_short(rng, bv)), trg.clone()];
     add(s, "f6a", run, &banks, Expect::MustReject(F6A));
     // (b) suppressed packet whose wire channel differs from the name's
     let banks = vec![(name.clone(), adc_short(rng, 128 + other)), trg.clone()];
@@ -783,26 +807,26 @@ fn f6_classes(s: &mut Session, rng: &mut Rng, run: u32) {
     // (d) the same C-bank twice with waveforms not longer than the delay
     let n = rng.range(64, d.max(64) as u64) as usize;
     let banks = vec![
-        (name.clone(), adc_bytes(rng, a16[b].1, 128 + ch, &wave(rng, n))),
-        (name.clone(), adc_bytes(rng, a16[b].1, 128 + ch, &wave(rng, n))),
+        (name.clone(), { let w_ = wave(rng, n); adc_bytes(rng, a16[b].1, 128 + ch, &w_) }),
+        (name.clone(), { let w_ = wave(rng, n); adc_bytes(rng, a16[b].1, 128 + ch, &w_) }),
         trg.clone(),
     ];
     add(s, "f6d", run, &banks, Expect::MustReject(F6D));
     // the long-waveform versions of (a), (b), (d) are rejected as the property demands
     let long = d + 71;
-    let banks = vec![(name.clone(), adc_bytes(rng, a16[b].1, rng.below(16) as u8, &wave(rng, long))), trg.clone()];
+    let banks = vec![(name.clone(), { let w_ = wave(rng, long); let bv = rng.below(16) as u8; adc_bytes(rng, a16[b].1, bv, &w_) }), trg.clone()];
     add(s, "f6-long", run, &banks, Expect::MustReject("wire bank holds a barrel-veto channel"));
-    let banks = vec![(name.clone(), adc_bytes(rng, a16[b].1, 128 + other, &wave(rng, long))), trg.clone()];
+    let banks = vec![(name.clone(), { let w_ = wave(rng, long); adc_bytes(rng, a16[b].1, 128 + other, &w_) }), trg.clone()];
     add(s, "f6-long", run, &banks, Expect::MustReject("wire bank name and payload disagree on the channel"));
     let banks = vec![
-        (name.clone(), adc_bytes(rng, a16[b].1, 128 + ch, &wave(rng, long))),
-        (name.clone(), adc_bytes(rng, a16[b].1, 128 + ch, &wave(rng, long))),
+        (name.clone(), { let w_ = wave(rng, long); adc_bytes(rng, a16[b].1, 128 + ch, &w_) }),
+        (name.clone(), { let w_ = wave(rng, long); adc_bytes(rng, a16[b].1, 128 + ch, &w_) }),
         trg.clone(),
     ];
     add(s, "f6-long", run, &banks, Expect::MustReject("duplicated wire bank"));
     // mixed duplicate: one waveform longer than the delay, one not — the answer depends on the order
-    let short = adc_bytes(rng, a16[b].1, 128 + ch, &wave(rng, n));
-    let longp = adc_bytes(rng, a16[b].1, 128 + ch, &wave(rng, long));
+    let short = { let w_ = wave(rng, n); adc_bytes(rng, a16[b].1, 128 + ch, &w_) };
+    let longp = { let w_ = wave(rng, long); adc_bytes(rng, a16[b].1, 128 + ch, &w_) };
     let banks = vec![(name.clone(), longp.clone()), (name.clone(), short.clone()), trg.clone()];
     add(s, "f6-mixed", run, &banks, Expect::MustReject("duplicated wire bank (long waveform first, short second)"));
     let banks = vec![(name.clone(), short), (name.clone(), longp), trg.clone()];
@@ -830,8 +854,16 @@ fn inner_identity(s: &mut Session, rng: &mut Rng, run: u32) {
     // chunk header: chip 0; packet inside: letter C
     let payload = pwb_payload(rng, pwb[b1].1, b'C', req, &sent);
     let mut banks = chunk_banks(rng, &pc_name(&pwb[b1].0), &payload, 4000, pwb[b1].2, 0);
-    banks.push(trg);
+    banks.push(trg.clone());
     add(s, "pwb-inner-chip", run, &banks, Expect::MustReject("X2 PWB packet whose AFTER letter differs from the chip of its chunk headers accepted"));
+    // two packets under different (consistent-looking) chunk headers that name the same board and
+    // chip inside: the same pads twice
+    let payload1 = pwb_payload(rng, pwb[b1].1, b'A', req, &sent);
+    let payload2 = pwb_payload(rng, pwb[b1].1, b'A', req, &sent);
+    let mut banks = chunk_banks(rng, &pc_name(&pwb[b1].0), &payload1, 4000, pwb[b1].2, 0);
+    banks.extend(chunk_banks(rng, &pc_name(&pwb[b2].0), &payload2, 4000, pwb[b2].2, 0));
+    banks.push(("ATAT".to_string(), trg_bytes(rng, 6)));
+    add(s, "pwb-same-pad-twice", run, &banks, Expect::MustReject("two PWB packets deliver the same pad"));
 }
 
 pub fn generate(s: &mut Session, thorough: bool) -> bool {
